@@ -134,8 +134,10 @@ def open_file(E, a, kw, fr, node):
     mode = a[1] if len(a) > 1 else kw.get("mode", "r")
     if not isinstance(mode, str):
         raise Unsupported("open() with a symbolic mode")
-    if "b" not in mode:
+    if "b" not in mode and mode not in ("w", "x"):
         raise Unsupported("text-mode open")
+    # text mode "w" / "x": the handle is created like a binary one; only json.dump(obj, f) is modelled as a writer of text
+    # (f.write(str) has no model and leaves the verified subset)
     m = mode.replace("b", "")
     if m in ("r", "r+"):
         E.may_raise("FileNotFoundError", z3.Not(fs_has(E, path)), line, "open(%s) of a missing file" % mode)
@@ -240,6 +242,16 @@ def pickle_dump(E, a, kw, fr, node):
     from .externals import EXT
     data = EXT["pickle.dumps"](E, [a[0]], {}, fr, node)
     E.assume(valid_pickle(data.t))
+    return file_method(E, as_file(E, a[1], getattr(node, "lineno", 0), "TypeError"), "write", [data], {}, fr, node)
+
+
+JSON_BYTES = z3.Function("json_bytes", BYTES, BYTES)     # the text json.dump writes for an (opaque) value, as bytes
+
+
+def json_dump(E, a, kw, fr, node):
+    """json.dump(obj, f): the file receives a function of the value (the value itself is an opaque token here)"""
+    v = E.to_sv(a[0], TBytes)
+    data = SV(JSON_BYTES(v.t), TBytes)
     return file_method(E, as_file(E, a[1], getattr(node, "lineno", 0), "TypeError"), "write", [data], {}, fr, node)
 
 
